@@ -174,11 +174,14 @@ impl VecOracle {
 pub struct Real {
     comp: Option<CompoundFile<SharedFile>>,
     stream: Option<Stream<SharedFile>>,
+    backing: Option<SharedFile>,
+    /// C10: a refused call (an `err` result) left the backing bytes or the handle state changed
+    pub refusal_violations: Vec<String>,
 }
 
 impl Real {
     pub fn new() -> Real {
-        Real { comp: None, stream: None }
+        Real { comp: None, stream: None, backing: None, refusal_violations: vec![] }
     }
 
     fn state(&self) -> String {
@@ -193,11 +196,24 @@ impl Real {
 
     /// Executes one op on the real crate; returns the canonical output (without state).
     pub fn exec(&mut self, op: &Op) -> String {
+        let before = match op {
+            Op::New(..) | Op::Final => None,
+            _ => self.backing.as_ref().map(|b| (b.snapshot(), self.state())),
+        };
         let r = catch(|| self.exec_inner(op));
-        match r {
+        let out = match r {
             Ok(s) => s,
             Err(_) => "panic".into(),
+        };
+        if let (Some((bytes, state)), true) = (before, out == "err invalidInput") {
+            let now = self.backing.as_ref().unwrap().snapshot();
+            if now != bytes {
+                self.refusal_violations.push(format!("{} was refused ({}) but the file bytes changed", op.render(), out));
+            } else if self.state() != state {
+                self.refusal_violations.push(format!("{} was refused ({}) but the handle state changed from [{}] to [{}]", op.render(), out, state, self.state()));
+            }
         }
+        out
     }
 
     fn exec_inner(&mut self, op: &Op) -> String {
@@ -217,6 +233,7 @@ impl Real {
                     s.write_all(content).unwrap();
                 }
                 let file = comp.into_inner();
+                self.backing = Some(file.alias());
                 let mut comp = OpenOptions::new().max_buffer_size(*maxbuf).open_with(file).unwrap();
                 self.stream = Some(comp.open_stream("/s").unwrap());
                 self.comp = Some(comp);
@@ -354,6 +371,9 @@ pub fn campaign(seed: u64, count: u64, max_ops: u64, ops_path: &str, impl_path: 
         for v in oracle.violations {
             violations.push(format!("script {} (seed {}): {}", script, seed, v));
         }
+        for v in real.refusal_violations.drain(..) {
+            violations.push(format!("script {} (seed {}): refused {}", script, seed, v));
+        }
     }
     std::fs::write(ops_path, ops_out).unwrap();
     std::fs::write(impl_path, impl_out).unwrap();
@@ -384,5 +404,7 @@ pub fn replay(ops_path: &str, impl_path: &str) -> Vec<String> {
         }
     }
     std::fs::write(impl_path, impl_out).unwrap();
-    oracle.violations
+    let mut v = oracle.violations;
+    v.extend(real.refusal_violations.drain(..).map(|m| format!("refused {}", m)));
+    v
 }
